@@ -66,7 +66,7 @@ LawPrefixClosed ==
      /\ \A t \in DeepAlpha : MatchRfc(case.a, Ext(case.b, t))
      /\ (Len(case.a.segs) > 0 => MatchRfc(Cut(case.a), case.b))
 LawAntisym == (MatchRfc(case.a, case.b) /\ MatchRfc(case.b, case.a)) <=> (Canon(case.a) = Canon(case.b))
-LawTrans == \A c \in Thirds(case.b) : (MatchRfc(case.a, case.b) /\ MatchRfc(case.b, c)) => MatchRfc(case.a, c)
+LawTrans == MatchRfc(case.a, case.b) => \A c \in Thirds(case.b) : MatchRfc(case.b, c) => MatchRfc(case.a, c)
 \* "after percent-decoding": replacing a segment by another spelling of the same decoded segment changes nothing
 LawDecoding ==
   \A i \in 1..Len(case.a.segs) : \A t \in SegTokens :
